@@ -100,13 +100,22 @@ func vsBatchEquation(es []vEntry, rnd []byte, variant int, ctx string) bool {
 	return vUFBool("isId", vUFPt("mul8", vUFPt("msm"+vItoa(2*m+1), args...)))
 }
 
-var vBatchSizesQuick = [...]int{0, 1, 2, 3, 4, 5, 6, 8, 9}
+var vBatchSizesQuick = [...]int{0, 1, 2, 3, 4, 5, 6, 8, 9, 68, 70, 131}
 var vBatchSizesThorough = [...]int{0, 1, 2, 3, 4, 5, 6, 7, 8, 9, 13, 63, 64, 65, 67, 68, 69, 127, 128, 129, 130, 131}
 
 // malformed-entry kinds: 0 none, 1 key of 31 bytes, 2 signature of 63 bytes, 3 signature of 65 bytes, 4 nil signature, 5 nil key, 6 digest of 63 bytes (ph)
+// vReplicate > 0: entries 0..vReplicate-1 are one and the same symbolic entry (the same slices), which keeps
+// multi-chunk batches tractable: the first chunks collapse by hash-consing and syntactic path pruning while
+// the entries of the last chunk / remainder stay independent
+var vReplicate int
+
 func vBatchEntries(n, badPos, badKind, variant int) []vEntry {
 	es := make([]vEntry, n)
 	for i := 0; i < n; i++ {
+		if i > 0 && i < vReplicate {
+			es[i] = es[0]
+			continue
+		}
 		kl, sl, ml := 32, 64, 64
 		isNilSig, isNilKey := false, false
 		if i == badPos {
@@ -253,14 +262,23 @@ func vBatchCase(variant int) {
 	} else {
 		n = vBatchSizesThorough[vCase(0, len(vBatchSizesThorough)-1)]
 	}
-	vNote("batch lengths: quick {0,1,2,3,4,5,6,8,9}, thorough adds {7,13,63,64,65,67,68,69,127..131}; at most one malformed entry (6 kinds) at first/middle/last position; all entry bytes symbolic; messages opaque")
+	vNote("batch lengths: quick {0,1,2,3,4,5,6,8,9} fully symbolic plus {68,70,131} with the first 64 resp. 128 entries being one replicated symbolic entry (second/third chunk and remainder independent); thorough adds {7,13,63,64,65,67,68,69,127..131} fully symbolic; at most one malformed entry (6 kinds) at first/middle/last position; all entry bytes symbolic; messages opaque")
+	vReplicate = 0
+	if vTier() == 0 && n > 9 {
+		vReplicate = (n / 64) * 64
+	}
 	badKind := 0
 	badPos := -1
 	maxKind := 5
 	if variant == 2 {
 		maxKind = 6
 	}
-	if n > 0 {
+	if n > 9 && vTier() == 0 {
+		// multi-chunk batches in the quick tier: well-formed, or a truncated signature at the last position
+		if vCase(0, 1) == 1 {
+			badKind, badPos = 2, n-1
+		}
+	} else if n > 0 {
 		badKind = vCase(0, maxKind)
 		if badKind != 0 {
 			switch vCase(0, 2) {
@@ -272,6 +290,9 @@ func vBatchCase(variant int) {
 				badPos = n - 1
 			}
 		}
+	}
+	if vReplicate > 0 && badPos >= 0 && badPos < vReplicate {
+		badPos = vReplicate + badPos%(n-vReplicate) // keep the malformed entry among the independent ones
 	}
 	r := vBatchRun(n, badPos, badKind, variant)
 	vAssert(!r.panicked, "VerifyBatch never panics")
